@@ -463,6 +463,255 @@ fn fault_json(m: &BTreeMap<(&'static str, &'static str), u64>) -> serde_json::Va
     serde_json::Value::Object(o)
 }
 
+#[derive(Default)]
+struct SessCover {
+    sessions: u64,
+    runs: u64,
+    earlier_runs_completed: u64,
+    crashes: BTreeMap<&'static str, u64>,
+    torn_writes: u64,
+    final_failures_not_judged: u64,
+    finals_on_leftovers: u64,
+    distinct_leftovers: HashSet<u64>,
+    distinct_sessions: HashSet<u64>,
+    fs_mutations: u64,
+    metadata_queries: u64,
+    crash_points: u64,
+    clock_stepped_back: u64,
+    failing: Vec<(u64, Vec<Violation>)>,
+    failing_total: u64,
+    requested_not_run: u64,
+    sample_digests: BTreeMap<u64, u64>,
+    stats: RunStats,
+}
+
+impl SessCover {
+    fn merge(&mut self, o: SessCover) {
+        self.sessions += o.sessions;
+        self.runs += o.runs;
+        self.earlier_runs_completed += o.earlier_runs_completed;
+        for (k, v) in o.crashes {
+            *self.crashes.entry(k).or_default() += v;
+        }
+        self.torn_writes += o.torn_writes;
+        self.final_failures_not_judged += o.final_failures_not_judged;
+        self.finals_on_leftovers += o.finals_on_leftovers;
+        self.distinct_leftovers.extend(o.distinct_leftovers);
+        self.distinct_sessions.extend(o.distinct_sessions);
+        self.fs_mutations += o.fs_mutations;
+        self.metadata_queries += o.metadata_queries;
+        self.crash_points += o.crash_points;
+        self.clock_stepped_back += o.clock_stepped_back;
+        self.failing.extend(o.failing);
+        self.failing_total += o.failing_total;
+        self.requested_not_run += o.requested_not_run;
+        self.sample_digests.extend(o.sample_digests);
+        self.stats.add(&o.stats);
+    }
+}
+
+/// Crash-restart histories (DESIGN §4.11): session i = a few earlier runs on one simulated machine,
+/// most of them cut short at a seeded crash point (process kill or power loss), then one run that
+/// is judged. Whatever the earlier runs left on the simulated disk is what the judged run starts on.
+fn run_session_batch(ctx: &Arc<Ctx>, gen: Gen, seed: u64, sessions: u64, threads: u64, m0: u64, budget: std::time::Duration) -> SessCover {
+    let started = Instant::now();
+    let mut handles = vec![];
+    for t in 0..threads {
+        let ctx = ctx.clone();
+        handles.push(
+            std::thread::Builder::new()
+                .stack_size(64 << 20)
+                .spawn(move || {
+                    let mut cov = SessCover::default();
+                    let mut good: Vec<String> = vec![];
+                    let mut i = t;
+                    while i < sessions {
+                        if started.elapsed() > budget {
+                            cov.requested_not_run += (sessions - i + threads - 1) / threads;
+                            break;
+                        }
+                        sim::set_label(Some(sim::RunLabel {
+                            gen,
+                            batch: "session",
+                            seed,
+                            run: i,
+                        }));
+                        let (steps, mtime_seed) = sim::session_steps(seed, gen, &ctx.image, i, m0);
+                        let res = sim::execute_session(gen, &ctx.image, &steps, mtime_seed, false);
+                        sim::set_label(None);
+                        let v = sim::judge_session(&res, &ctx.comp, &mut good);
+                        cov.sessions += 1;
+                        cov.runs += res.runs.len() as u64;
+                        for (st, r) in steps.iter().zip(res.runs.iter()) {
+                            cov.stats.add(&r.stats);
+                            cov.fs_mutations += r.fs_mutations;
+                            cov.metadata_queries += r.metadata_queries;
+                            cov.crash_points += r.crash_points;
+                            if st.gap_ns < 0 {
+                                cov.clock_stepped_back += 1;
+                            }
+                            if st.crash.is_some() {
+                                match r.crashed {
+                                    Some(k) => *cov.crashes.entry(k.name()).or_default() += 1,
+                                    None => cov.earlier_runs_completed += 1,
+                                }
+                            }
+                            if r.torn_write {
+                                cov.torn_writes += 1;
+                            }
+                        }
+                        let before_last = &res.runs[res.runs.len() - 2].disk_after;
+                        if !before_last.files.is_empty() || !before_last.removed.is_empty() {
+                            cov.finals_on_leftovers += 1;
+                            cov.distinct_leftovers.insert(before_last.digest());
+                        }
+                        if res.last().panic.is_some() {
+                            cov.final_failures_not_judged += 1;
+                        }
+                        let dg = res.digest();
+                        cov.distinct_sessions.insert(dg);
+                        if i % 8 == 0 && cov.sample_digests.len() < 64 {
+                            cov.sample_digests.insert(i, dg);
+                        }
+                        if !v.is_empty() {
+                            cov.failing_total += 1;
+                            if cov.failing.len() < 16 {
+                                cov.failing.push((i, v));
+                            }
+                        }
+                        i += threads;
+                    }
+                    cov
+                })
+                .unwrap(),
+        );
+    }
+    let mut total = SessCover::default();
+    for h in handles {
+        match h.join() {
+            Ok(c) => total.merge(c),
+            Err(_) => harness_error("a session worker thread panicked outside a simulated run"),
+        }
+    }
+    total
+}
+
+fn crash_json(c: &Option<world::CrashPlan>) -> serde_json::Value {
+    match c {
+        Some(c) => json!({ "at_crash_point": c.at, "kind": c.kind.name(), "salt": c.salt }),
+        None => json!(null),
+    }
+}
+
+fn crash_from_json(v: &serde_json::Value) -> Option<world::CrashPlan> {
+    if v.is_null() {
+        return None;
+    }
+    Some(world::CrashPlan {
+        at: v["at_crash_point"].as_u64()?,
+        kind: if v["kind"].as_str() == Some("power_loss") { world::CrashKind::PowerLoss } else { world::CrashKind::Kill },
+        salt: v["salt"].as_u64().unwrap_or(0),
+    })
+}
+
+fn write_session_replay(
+    dir: &Path,
+    ctx: &Ctx,
+    gen: Gen,
+    seed: u64,
+    session: u64,
+    tier: &str,
+    v: &Violation,
+    steps: &[sim::ExplicitStep],
+    mtime_seed: u64,
+    extra: serde_json::Value,
+) -> PathBuf {
+    std::fs::create_dir_all(dir).ok();
+    let mut sig = rng::Fnv::default();
+    sig.str(&v.signature);
+    let path = dir.join(format!("{}-session-{}-seed{}-s{}-{:08x}.json", PROPERTY, gen.name(), seed, session, sig.0 as u32));
+    let steps_json: Vec<serde_json::Value> = steps
+        .iter()
+        .enumerate()
+        .map(|(i, (sched, crash, gap, drift))| {
+            json!({
+                "run": i,
+                "judged": i + 1 == steps.len(),
+                "clock_gap_ns_since_previous_run": gap,
+                "cut_short": crash_json(crash),
+                "saw_an_earlier_version_of_the_data": drift.iter().map(drift_json).collect::<Vec<_>>(),
+                "schedule": if drift.is_empty() { schedule::to_json(sched, &ctx.image) } else { schedule::to_json(sched, &ctx.image.with_drift(drift)) },
+            })
+        })
+        .collect();
+    let j = json!({
+        "property": PROPERTY,
+        "kind": "session",
+        "generator": gen.name(),
+        "program": gen.program(),
+        "seed": seed,
+        "session": session,
+        "tier": tier,
+        "violation": { "class": v.class, "table": v.table, "signature": v.signature, "detail": v.detail },
+        "mtime_seed": mtime_seed,
+        "steps": steps_json,
+        "minimisation": extra,
+        "data_digest": format!("{:016x}", ctx.image.digest),
+        "generator_source_digest": format!("{:016x}", ctx.gen_src_digest),
+        "replay_cmd": format!("./run.sh C18 --replay {}", path.display()),
+    });
+    if let Err(e) = std::fs::write(&path, serde_json::to_string_pretty(&j).unwrap() + "\n") {
+        harness_error(&format!("cannot write {}: {}", path.display(), e));
+    }
+    path
+}
+
+fn drift_json(d: &world::Drift) -> serde_json::Value {
+    match d {
+        world::Drift::MissingDir { dir, name } => json!({ "op": "missing_dir", "dir": dir, "name": name }),
+        world::Drift::ExtraDir { dir, name, clone_of } => json!({ "op": "extra_dir", "dir": dir, "name": name, "clone_of": clone_of }),
+        world::Drift::OtherContent { dir, name, content_of } => json!({ "op": "other_content", "dir": dir, "name": name, "content_of": content_of }),
+        world::Drift::MissingLines { file, lines } => json!({ "op": "missing_lines", "file": file, "lines": lines }),
+        world::Drift::SwappedValues { file, a, b } => json!({ "op": "swapped_values", "file": file, "a": a, "b": b }),
+    }
+}
+
+fn drift_from_json(v: &serde_json::Value) -> Result<world::Drift, String> {
+    let s = |k: &str| -> Result<String, String> { v[k].as_str().map(|x| x.to_string()).ok_or_else(|| format!("drift without {}", k)) };
+    Ok(match v["op"].as_str() {
+        Some("missing_dir") => world::Drift::MissingDir { dir: s("dir")?, name: s("name")? },
+        Some("extra_dir") => world::Drift::ExtraDir { dir: s("dir")?, name: s("name")?, clone_of: s("clone_of")? },
+        Some("other_content") => world::Drift::OtherContent { dir: s("dir")?, name: s("name")?, content_of: s("content_of")? },
+        Some("missing_lines") => world::Drift::MissingLines {
+            file: s("file")?,
+            lines: v["lines"].as_array().map(|a| a.iter().filter_map(|x| x.as_u64()).map(|x| x as u32).collect()).unwrap_or_default(),
+        },
+        Some("swapped_values") => world::Drift::SwappedValues {
+            file: s("file")?,
+            a: v["a"].as_u64().unwrap_or(0) as u32,
+            b: v["b"].as_u64().unwrap_or(0) as u32,
+        },
+        o => return Err(format!("unknown drift op {:?}", o)),
+    })
+}
+
+fn session_steps_from_json(j: &serde_json::Value, image: &FsImage) -> Result<(Vec<sim::ExplicitStep>, u64), String> {
+    let mut out = vec![];
+    for st in j["steps"].as_array().ok_or("session replay without steps")? {
+        let drift: Vec<world::Drift> = match st["saw_an_earlier_version_of_the_data"].as_array() {
+            Some(a) => a.iter().map(drift_from_json).collect::<Result<_, _>>()?,
+            None => vec![],
+        };
+        // directory orders of a run on an earlier data version name entries of that version
+        let sched = if drift.is_empty() { schedule::from_json(&st["schedule"], image)? } else { schedule::from_json(&st["schedule"], &image.with_drift(&drift))? };
+        out.push((sched, crash_from_json(&st["cut_short"]), st["clock_gap_ns_since_previous_run"].as_i64().unwrap_or(0), drift));
+    }
+    if out.is_empty() {
+        return Err("session replay with no steps".into());
+    }
+    Ok((out, j["mtime_seed"].as_u64().unwrap_or(0)))
+}
+
 /// Re-execute the sampled runs on a different worker assignment; the event-log digests must agree.
 fn determinism_recheck(ctx: &Arc<Ctx>, gen: Gen, seed: u64, samples: &BTreeMap<u64, u64>, threads: u64) -> (u64, u64) {
     let list: Vec<(u64, u64)> = samples.iter().map(|(a, b)| (*a, *b)).collect();
@@ -789,6 +1038,62 @@ fn cmd_check(a: &Args) -> i32 {
         lik = run_batch(&ctx, Gen::Likely, seed, n, threads, (n / 256).max(1), secs(90, 1800));
     }
     let sim_wall = t_sim.elapsed().as_secs_f64();
+    // ---- crash-restart histories: does anything a cut-short run leaves behind change what the
+    // next complete run prints? A program that keeps nothing on disk between runs (today's
+    // generators: no file-system mutation, no metadata query) has nothing to leave behind; it gets
+    // a token batch that keeps the machinery exercised. A program that writes files, keeps a cache
+    // or looks at modification times gets a seeded search over histories.
+    let t_sess = Instant::now();
+    let mut sess: Vec<(Gen, u64, bool, SessCover)> = vec![];
+    for g in [Gen::Layout, Gen::Likely] {
+        let probe = sim::execute(g, &ctx.image, sim::replay_mode(&[]), false, false);
+        let stateful = probe.fs_mutations > 0 || probe.metadata_queries > 0;
+        let n = match a.opts.get("sessions") {
+            Some(_) => opt_u64(a, "sessions", 0),
+            None => match (stateful, tier.as_str()) {
+                (true, "quick") => 3_000,
+                (true, _) => 200_000,
+                (false, "quick") => 96,
+                (false, _) => 4_000,
+            },
+        };
+        let c = run_session_batch(&ctx, g, seed, n, threads.min(n.max(1)), probe.crash_points, secs(120, 1800));
+        println!(
+            "sessions {}: {} histories ({} runs; program {} state on disk: {} fs mutations, {} metadata queries in a default run), cut short: {:?}, earlier runs completed {}, judged runs starting on leftovers {}, distinct leftovers {}, judged-run failures not judged {}, failing {}",
+            g.name(),
+            c.sessions,
+            c.runs,
+            if stateful { "keeps" } else { "keeps no" },
+            probe.fs_mutations,
+            probe.metadata_queries,
+            c.crashes,
+            c.earlier_runs_completed,
+            c.finals_on_leftovers,
+            c.distinct_leftovers.len(),
+            c.final_failures_not_judged,
+            c.failing_total
+        );
+        if c.requested_not_run > 0 {
+            println!("NOTE: sessions {}: {} of the requested histories were not executed (wall-clock budget)", g.name(), c.requested_not_run);
+        }
+        sess.push((g, probe.crash_points, stateful, c));
+    }
+    // determinism of the session machinery: re-execute the sampled histories
+    let mut sess_recheck = (0u64, 0u64);
+    for (g, m0, _stateful, c) in &sess {
+        for (i, dg) in &c.sample_digests {
+            let (steps, ms) = sim::session_steps(seed, *g, &ctx.image, *i, *m0);
+            let r = sim::execute_session(*g, &ctx.image, &steps, ms, false);
+            sess_recheck.0 += 1;
+            if r.digest() != *dg {
+                sess_recheck.1 += 1;
+            }
+        }
+    }
+    if sess_recheck.1 > 0 {
+        harness_error(&format!("determinism self-check failed: {} of {} re-executed sessions differ", sess_recheck.1, sess_recheck.0));
+    }
+    let sess_wall = t_sess.elapsed().as_secs_f64();
     // ---- fidelity cross-check: the real binaries, run for real (no seam), must print what the
     // simulated programs printed and what the tables hold
     let real_dir = a.opts.get("real-bins").map(PathBuf::from);
@@ -944,6 +1249,46 @@ fn cmd_check(a: &Args) -> i32 {
             }
         }
     }
+    for (gen, m0, _stateful, cov) in &sess {
+        let mut classes_done: BTreeSet<String> = BTreeSet::new();
+        let mut failing: Vec<&(u64, Vec<Violation>)> = cov.failing.iter().collect();
+        failing.sort_by_key(|f| f.0);
+        for (si, vs) in failing {
+            for v in vs {
+                let class = sim::violation_class(v);
+                let gclass = format!("{}/{}", gen.name(), class);
+                // a defect the single-run search already reported needs no history to show
+                if classes_done.contains(&class) || classes_done.len() >= 4 || classes_done_global.contains(&gclass) {
+                    continue;
+                }
+                classes_done.insert(class.clone());
+                classes_done_global.insert(gclass);
+                if let Some((_s, what)) = is_known(v) {
+                    known_lines.push(format!("KNOWN-FINDING: property={} {} ({})", PROPERTY, v.signature, what));
+                    continue;
+                }
+                let (steps, ms) = sim::session_steps(seed, *gen, &ctx.image, *si, *m0);
+                let res = sim::execute_session(*gen, &ctx.image, &steps, ms, false);
+                let explicit = sim::explicit_steps(&steps, &res);
+                let before = explicit.len();
+                let (min, tests) = sim::minimise_session(*gen, &ctx.image, &ctx.comp, explicit, ms, &class);
+                let rr = sim::execute_session(*gen, &ctx.image, &sim::steps_from_explicit(&min), ms, false);
+                let mut good = vec![];
+                let final_v = sim::judge_session(&rr, &ctx.comp, &mut good)
+                    .into_iter()
+                    .find(|x| sim::violation_class(x) == class)
+                    .unwrap_or_else(|| v.clone());
+                let extra = json!({
+                    "replays_run": tests,
+                    "runs_in_history_before": before,
+                    "runs_in_history_after": min.len(),
+                    "failing_sessions_in_batch": cov.failing_total,
+                });
+                let p = write_session_replay(&replay_dir, &ctx, *gen, seed, *si, &tier, &final_v, &min, ms, extra);
+                reported.push((final_v, p));
+            }
+        }
+    }
     for (gen, v, _text) in &real_viol {
         // the simulated search normally reports the same defect with an exact replay; a real-run
         // mismatch that simulation did not see is reported on its own (replay = re-run the binary)
@@ -982,7 +1327,7 @@ fn cmd_check(a: &Args) -> i32 {
         .zip(lay.pair_ba.iter())
         .filter(|(a, b)| **a && **b)
         .count();
-    let total_runs = lay.runs + lik.runs + cvr.runs;
+    let total_runs = lay.runs + lik.runs + cvr.runs + sess.iter().map(|(_, _, _, c)| c.runs).sum::<u64>();
     let distinct_nontrivial = {
         // distinct seam-level executions (event-log digests) other than the all-default schedule's
         let base_l = sim::execute(Gen::Layout, &ctx.image, sim::replay_mode(&[]), false, false).log_digest;
@@ -1061,6 +1406,32 @@ fn cmd_check(a: &Args) -> i32 {
                 "runs": { "generate_layout": fault_runs, "generate_likelysubtags": (fault_runs / 100).max(12) },
                 "generate_layout": fault_json(&hf_lay),
                 "generate_likelysubtags": fault_json(&hf_lik),
+            },
+            "crash_restart_histories": {
+                "note": "a session = one to three earlier runs of the generator on one simulated machine, each under its own seeded schedule and most of them cut short at a seeded crash point (process kill: completed writes survive, the write in progress may be torn; power loss: whatever was not fsynced may be old, new, torn or empty, a rename is atomic but not durable), followed by one complete run that is judged: it may fail loudly, it may not complete with a table that differs from the compiled one. The clock moves by a seeded amount between runs (also backwards). A program that keeps nothing on disk gets a token batch only.",
+                "wall_s": sess_wall,
+                "sessions_reexecuted_for_determinism": sess_recheck.0,
+                "session_digest_mismatches": sess_recheck.1,
+                "per_generator": sess.iter().map(|(g, m0, stateful, c)| json!({
+                    "generator": g.name(),
+                    "program_keeps_state_on_disk": stateful,
+                    "crash_points_in_a_default_run": m0,
+                    "sessions": c.sessions,
+                    "runs": c.runs,
+                    "requested_sessions_not_executed_wall_clock_budget": c.requested_not_run,
+                    "earlier_runs_cut_short": c.crashes,
+                    "earlier_runs_that_completed": c.earlier_runs_completed,
+                    "writes_torn_by_the_crash": c.torn_writes,
+                    "runs_started_after_the_clock_was_stepped_back": c.clock_stepped_back,
+                    "file_system_mutations": c.fs_mutations,
+                    "metadata_queries": c.metadata_queries,
+                    "crash_points_passed": c.crash_points,
+                    "judged_runs_that_started_on_leftovers": c.finals_on_leftovers,
+                    "distinct_leftover_disk_states": c.distinct_leftovers.len(),
+                    "distinct_sessions_by_digest": c.distinct_sessions.len(),
+                    "judged_runs_that_failed_loudly_not_judged": c.final_failures_not_judged,
+                    "failing_sessions": c.failing_total,
+                })).collect::<Vec<_>>(),
             },
             "profiles": {
                 "directory_order": lay.by_dir_kind,
@@ -1396,6 +1767,13 @@ fn cmd_replay(a: &Args) -> i32 {
             std::thread::Builder::new()
                 .stack_size(64 << 20)
                 .spawn(move || {
+                    if batch_name == "session" {
+                        let m0 = sim::execute(gen, &img, sim::replay_mode(&[]), false, false).crash_points;
+                        let (steps, ms) = sim::session_steps(seed, gen, &img, run, m0);
+                        let r = sim::execute_session(gen, &img, &steps, ms, false);
+                        let _ = tx.send(r.last().panic.clone());
+                        return;
+                    }
                     let mode = if batch_name == "default" { sim::replay_mode(&[]) } else { make_mode(batch, seed, gen, run) };
                     let r = sim::execute(gen, &img, mode, false, false);
                     let _ = tx.send(r.panic.clone());
@@ -1413,6 +1791,31 @@ fn cmd_replay(a: &Args) -> i32 {
                     limit.as_secs(),
                 )],
             }
+        }
+        Some("session") => {
+            let gen = Gen::parse(j["generator"].as_str().unwrap_or("")).unwrap_or_else(|| harness_error("replay file: bad generator"));
+            let (steps, ms) = session_steps_from_json(&j, &image).unwrap_or_else(|e| harness_error(&format!("replay file: {}", e)));
+            let res = sim::execute_session(gen, &image, &sim::steps_from_explicit(&steps), ms, false);
+            if !quiet {
+                for (i, r) in res.runs.iter().enumerate() {
+                    println!(
+                        "run {}: {} crash points passed, {} fs mutations, {}; left on disk: {:?}",
+                        i,
+                        r.crash_points,
+                        r.fs_mutations,
+                        match r.crashed {
+                            Some(k) => format!("cut short ({})", k.name()),
+                            None => match &r.panic {
+                                Some(p) => format!("failed: {}", p.lines().next().unwrap_or("")),
+                                None => "completed".to_string(),
+                            },
+                        },
+                        r.disk_after.files.iter().map(|(k, v)| format!("{} ({} bytes)", k, v.len())).collect::<Vec<_>>()
+                    );
+                }
+            }
+            let mut good = vec![];
+            sim::judge_session(&res, &comp, &mut good)
         }
         Some("run") => {
             let gen = Gen::parse(j["generator"].as_str().unwrap_or("")).unwrap_or_else(|| harness_error("replay file: bad generator"));
